@@ -44,10 +44,38 @@ def decode_frame(buf):
     try:
         if comp:
             data = zlib.decompress(data)
+    except Exception:  # noqa
+        return (-1, -1, None, HEADER + n + FLUSH)
+    try:
         msg, seq, args = brine.load(data)
     except Exception:  # noqa
-        return ("?", -1, None, HEADER + n + FLUSH)
+        # rpyc's own decoder refuses the payload (that may be the very defect being looked for): the recorder still
+        # needs the message type and the sequence number, which it reads itself from the head of the 3-tuple
+        msg, seq = peek_msg_seq(data)
+        return (msg, seq, None, HEADER + n + FLUSH)
     return (msg, seq, args, HEADER + n + FLUSH)
+
+
+def _peek_int(data, i):
+    b = data[i:i + 1]
+    if b in brine.IMM_INTS_LOADER:
+        return brine.IMM_INTS_LOADER[b], i + 1
+    if b == brine.TAG_INT_L1:
+        k = data[i + 1]
+        return int(data[i + 2:i + 2 + k]), i + 2 + k
+    raise ValueError("not a small int")
+
+
+def peek_msg_seq(data):
+    """(msg, seq) of a `(msg, seq, args)` payload without decoding `args`; (-1, -1) if it does not look like one"""
+    try:
+        if data[0:1] != brine.TAG_TUP3:
+            return (-1, -1)
+        msg, i = _peek_int(data, 1)
+        seq, _i = _peek_int(data, i)
+        return (msg, seq)
+    except Exception:  # noqa
+        return (-1, -1)
 
 
 def frame_length(buf):
